@@ -566,9 +566,85 @@ def compare(names, n, kind, rec: Recorder, seed=0):
              sample=lambda: dict(case, containers=len(m2), sample_sizes={k: v[1] for k, v in list(m2.items())[:12]}))
 
 
+def install_points_eof():
+    from dv import sched, simkernel as sk
+    N = sk.load_node()["node"].Node
+    sched.clear()
+    # the reader thread noting and handing on the request, the I/O thread reading the end of the stream and removing the
+    # connection with its notes
+    return sched.install({N._receive_message: r"_origin_waiting_answer|message_id|_receive_app_request|is_request",
+                          N._receive_app_request: r"_peer_waiting_answer|waiting|receive_request",
+                          N.remove_peer_connection: r"_peer_waiting_answer|_origin_waiting_answer|del self",
+                          N._handle_connections: r"\.recv\(|add_in_bytes|close_connection_socket\("})
+
+
+def request_vs_eof_retained(decisions):
+    """A request and the end of its connection reach the node in the same instant (the reader thread handles the request
+    while the I/O thread removes the connection).  Whatever the order: once the connection has ended, nothing about its
+    requests is retained.  One schedule."""
+    from dv import sched
+    w = W.NodeWorld({"peers": [{"name": "peer1.example", "ip": ["10.1.1.1"]}],
+                     "apps": [{"app_id": 4, "auth": True, "peers": [0], "kind": "basic", "handler": "hold"}],
+                     "node_timers": {"idle": 5000, "dwa": 50, "cer": 50, "cea": 50, "wakeup": 3}})
+    try:
+        w.start()
+        c = w.handshake_in("peer1.example", auth=[4], ip="10.1.1.1", hbh=0x100)
+        ex = sched.Explorer(decisions)
+        sched.attach(w.k, ex)
+        w.feed_msg(c, {"k": "REQ", "host": "peer1.example", "hbh": 0xa1, "e2e": 0x5101}, run=False)
+        c.peer_closed = True
+        c.remote.close()
+        ex.armed = True
+        w.k.run()
+        ex.armed = False
+        w.advance(7)
+        problems = []
+        node = w.node
+        if node.connections:
+            problems.append(("connection-still-tabled", f"{list(node.connections)}"))
+        else:
+            n_origin = len(node._origin_waiting_answer)
+            n_peer = sum(len(v) for v in node._peer_waiting_answer.values())
+            if n_origin:
+                problems.append(("node._origin_waiting_answer", f"{n_origin} entr(y/ies) kept after the requester's connection ended: "
+                                 f"{list(node._origin_waiting_answer)[:3]}"))
+            if n_peer:
+                problems.append(("node._peer_waiting_answer", f"{n_peer} entr(y/ies) kept after the requester's connection ended"))
+        delivered = any(r["e2e"] == 0x5101 for r in w.requests_seen)
+        return ex.trace, problems, delivered
+    finally:
+        w.close()
+
+
+def schedule_part(rec, shard, nshards, thorough):
+    from dv import sched
+    from checks import c09
+    info = install_points_eof()
+    if shard == 0:
+        rec.extra["preemption_functions_request_vs_eof"] = info
+    holder = {}
+
+    def run_one(dec):
+        tr, problems, delivered = request_vs_eof_retained(dec)
+        holder["last"] = (problems, delivered)
+        return tr
+    n_ = 0
+    for dec, trace in sched.enumerate_schedules(run_one, 3 if thorough else 2, shard, nshards):
+        case = {"request_vs_eof": True, "schedule": {str(i): c for i, c in sorted(dec.items())}}
+        for k_, detail in holder["last"][0]:
+            rec.violation(f"C19/request-vs-eof/retained/{k_}", case, detail)
+        n_ += 1
+        rec.case(fp("sched-eof", tuple(sorted(dec.items()))) if dec else None,
+                 ["schedule-exploration", "request-vs-eof:" + ("delivered" if holder["last"][1] else "not-delivered")],
+                 sample=lambda: dict(case, choice_points=len(trace)))
+    rec.extra["request_vs_eof_schedules"] = rec.extra.get("request_vs_eof_schedules", 0) + n_
+    sched.clear()
+
+
 def shard_main(shard, nshards, tier, scale):
     rec = Recorder(PID)
     thorough = tier == "thorough"
+    schedule_part(rec, shard, nshards, thorough)
     Ns = [1, 10, 100] if thorough else [1, 10]
     jobs = []
     for nm in SCENARIOS:
@@ -601,7 +677,7 @@ def run(tier, scale=1.0):
     rec = Recorder(PID)
     for d in hyp.pool_run(shard_main, (tier, scale)):
         rec.merge(d)
-    required = {f"scenario:{s}": 1 for s in SCENARIOS} | {"N:10": 1, "app:threading": 1}
+    required = {f"scenario:{s}": 1 for s in SCENARIOS} | {"schedule-exploration": 1, "measured-while-connected": 1, "N:10": 1, "app:threading": 1}
     return finish(rec, tier=tier, level="exploration", rule=RULE, assumptions=ASSUME, t0=t0,
                   required_classes=required)
 
@@ -609,6 +685,18 @@ def run(tier, scale=1.0):
 def replay(doc):
     rec = Recorder(PID)
     case = doc["case"]
+    if case.get("request_vs_eof"):
+        from dv import sched
+        from checks import c09
+        install_points_eof()
+        _, problems, _ = request_vs_eof_retained({int(i): c for i, c in case["schedule"].items()})
+        sigs = [f"C19/request-vs-eof/retained/{k}" for k, _ in problems]
+        if doc["signature"] in sigs:
+            print(f"  replayed: {problems[0][1][:300]}")
+            print(f"VIOLATION property={PID} replay=(replay)")
+            return 1
+        print(f"[{PID}] replay: signature does not reproduce (got {sigs})")
+        return 0
     compare(tuple(case["scenarios"]), case["N"], case["app_kind"], rec)
     if doc["signature"] in rec.violations:
         print(f"  replayed: {rec.violations[doc['signature']]['detail'][:300]}")
